@@ -33,7 +33,6 @@ Record allow := mkAllow {
   al_pkg : string; al_fn : string; al_var : string; al_kind : akind; al_ord : N; al_reason : reason
 }.
 
-Definition f9b := KnownFinding "C16/race-unlocked-read-vs-reinit-after-explicit-version".
 Definition api_only := NotOnRunPath "public API of kyaml/openapi that krusty.Run never calls".
 Definition goplugins := OutOfScope "Go-plugin registry: only touched when a Go plugin (.so) is loaded; plugins are disabled by krusty.MakeDefaultOptions and outside the property's trees".
 Definition shorthand := OutOfScope "kyaml/fieldmeta.shortHandRef is written only by SetShortHandRef (cmd/config CLI set-up), never during a build".
@@ -44,9 +43,13 @@ Definition allow_list : list allow := [
   (* sites that clear schemaInit: only executed for a custom schema / an explicit version / by ResetOpenAPI *)
   mkAllow "kyaml/openapi" "SetSchema" "kyaml/openapi.globalSchema.schemaInit" AWrite 0
           (ResetSite "the build installs a custom schema (openapi: path) — outside C16's domain");
-  (* ... including the DEFAULT built-in version spelled out: such a build is inside C16's domain, and the re-run of
-     initSchema it provokes races with the unlocked reads of other builds: confirmed finding *)
-  mkAllow "kyaml/openapi" "SetSchema" "kyaml/openapi.globalSchema.schemaInit" AWrite 1 f9b;
+  (* ... or selects a DIFFERENT built-in version than the one in use (since /repo 5e76c27: selecting the version
+     already in use keeps the parsed schema; with a single compiled-in version this store is dead for valid input) *)
+  mkAllow "kyaml/openapi" "SetSchema" "kyaml/openapi.globalSchema.schemaInit" AWrite 1
+          (ResetSite "the build selects a built-in version different from the one in use — outside C16's domain (one built-in version)");
+  (* dropParsedSchema (since /repo 66a399d): the selection moves away from a custom schema or to a different one *)
+  mkAllow "kyaml/openapi" "dropParsedSchema" "kyaml/openapi.globalSchema" AWrite 0
+          (ResetSite "a custom schema is dropped or replaced — outside C16's domain");
   mkAllow "kyaml/openapi" "ResetOpenAPI" "kyaml/openapi.globalSchema" AWrite 0
           (ResetSite "ResetOpenAPI is test/API-only: not reachable from krusty.Run");
   (* rootSchema hands out &globalSchema.schema after initSchema(); its users (Resolve) only read through it *)
